@@ -34,6 +34,7 @@ type PropCfg struct {
 	AllowedGlobalWriters map[string][]string `json:"allowed_global_writers"`
 	AllowedNondet        map[string][]string `json:"allowed_nondet"`
 	AllowedGlobals       []string            `json:"allowed_globals"`
+	AllowedIDMapKeys     []string            `json:"allowed_id_map_keys"`
 }
 
 type KnownFinding struct {
